@@ -227,7 +227,10 @@ func forNud(p *parser, t *token) *token {
 		return t
 	}
 
-	first := p.Expression(0, "{")
+	first := symAtPos(t.Pos, "~") // for ; cond; post {: each part of the clause may be empty
+	if p.Token.Symbol != ";" {
+		first = p.Expression(0, "{")
+	}
 	if first.Symbol == "range" {
 		tok := first
 		tok.Append(blankAtPos(t.Pos))
@@ -257,11 +260,22 @@ func forNud(p *parser, t *token) *token {
 		return t
 	}
 
-	t.Append(simpleStatement(first))
+	if first.Symbol != "~" {
+		first = simpleStatement(first)
+	}
+	t.Append(first)
 	p.Advance(";")
-	t.Append(p.Expression(0, "{"))
+	if p.Token.Symbol == ";" {
+		t.Append(symAtPos(t.Pos, "~"))
+	} else {
+		t.Append(p.Expression(0, "{"))
+	}
 	p.Advance(";")
-	t.Append(simpleStatement(p.Expression(0, "{")))
+	if p.Token.Symbol == "{" {
+		t.Append(symAtPos(t.Pos, "~"))
+	} else {
+		t.Append(simpleStatement(p.Expression(0, "{")))
+	}
 	t.Append(p.Block("block", "{", "}"))
 	return t
 }
